@@ -561,6 +561,9 @@ func runC06(c *Ctx) {
 	lexStream(c, c.Scale(3000, 60000))
 	// whole texts read at header level by the model (lexer, abstract tokens, header machine) and by the parser
 	zoneTextStream(c, c.Scale(1500, 30000))
+	// $INCLUDE on the model: the records of an included file stand where the directive stands, read with the origin and
+	// default TTL in force there; the including file carries on with its own
+	includeTreeStream(c, "include-tree", c.Scale(400, 8000))
 }
 
 // substGenerate: independent expansion of $ / $$ / ${offset,width,base} / \$ for one iterator value
